@@ -160,7 +160,7 @@ theorem okItems_rects (rects : List Rect) (h : ∀ r ∈ rects, RectInRange r) :
 
 theorem read_comp_nil (n : String) (t : Msg) (fs : List (String × Msg)) (h : read t [] = .err []) :
     read (.comp ((n, t) :: fs)) [] = .err [] := by
-  simp [read, readFields, lookupSize, h]
+  simp [read, readFields, readStep, lookupSize, h]
 
 theorem read_bitmapDataTmpl_nil : read bitmapDataTmpl [] = .err [] := by
   unfold bitmapDataTmpl
